@@ -155,6 +155,28 @@ func (srv *Srv) flush(req *SrvReq) {
 		req.flushnext = r.flushreq
 		r.flushreq = req
 	}
+
+	/* the tag may carry a whole group of requests (newest first). The ones
+	 * that are not worked on yet are cancelled, they are taken off the
+	 * group in their turn; the one that is worked on is flushed */
+	var first, work *SrvReq
+	for rr := r; rr != nil; rr = rr.next {
+		rr.Lock()
+		status := rr.status
+		if rr.Tc.Type == Tflush {
+			/* every Tflush gets its Rflush: a flush is never cancelled, it
+			 * finishes on its own and the flush of it is answered afterwards */
+			status |= reqWork
+		}
+		if (status & (reqWork | reqSaved)) == 0 {
+			/* the request is not worked on yet */
+			rr.status |= reqFlush
+		} else {
+			work = rr
+		}
+		rr.Unlock()
+		first = rr
+	}
 	conn.Unlock()
 	verifPoint("flush.chained", req)
 
@@ -164,25 +186,12 @@ func (srv *Srv) flush(req *SrvReq) {
 		return
 	}
 
-	r.Lock()
-	status := r.status
-	if r.Tc.Type == Tflush {
-		/* every Tflush gets its Rflush: a flush is never cancelled, it
-		 * finishes on its own and the flush of it is answered afterwards */
-		status |= reqWork
-	}
-	if (status & (reqWork | reqSaved)) == 0 {
-		/* the request is not worked on yet */
-		r.status |= reqFlush
-	}
-	r.Unlock()
 	verifPoint("flush.decided", req)
-
-	if (status & (reqWork | reqSaved)) == 0 {
-		r.Respond()
+	if work == nil {
+		first.Respond()
 	} else {
 		if op, ok := (srv.ops).(FlushOp); ok {
-			op.Flush(r)
+			op.Flush(work)
 		}
 	}
 }
